@@ -526,9 +526,16 @@ class UnlimitedCollector(ScoredCollector):
     """A collector that returns **all** scored results.
     """
 
-    def __init__(self, reverse=False):
+    def __init__(self, reverse=False, limit=None):
+        """
+        :param reverse: If True, reverse the order of the results.
+        :param limit: if given, only the first ``limit`` results (after all
+            matching documents have been collected and ordered) are returned.
+        """
+
         ScoredCollector.__init__(self)
         self.reverse = reverse
+        self.limit = limit
 
     # ScoredCollector.collect calls this
     def _collect(self, global_docnum, score):
@@ -542,7 +549,10 @@ class UnlimitedCollector(ScoredCollector):
         # document number to keep the order stable when documents have the
         # same score
         self.items.sort(key=lambda x: (0 - x[0], x[1]), reverse=self.reverse)
-        return self._results(self.items, docset=self.docset)
+        items = self.items
+        if self.limit:
+            items = items[:self.limit]
+        return self._results(items, docset=self.docset)
 
 
 # Sorting collector
